@@ -191,6 +191,13 @@ def mk_ite(c, a, b):
     if veq(a, b):
         return a
     if isinstance(a, IntV) and isinstance(b, IntV) and a.bits == b.bits and a.signed == b.signed:
+        abv, bbv = a.bv, b.bv
+        if abv is None and bbv is not None and a.p is not None and a.p.const_value() is not None:
+            abv = bits_of_const(a.p.const_value() & ((1 << a.bits) - 1), a.bits)
+        if bbv is None and abv is not None and b.p is not None and b.p.const_value() is not None:
+            bbv = bits_of_const(b.p.const_value() & ((1 << b.bits) - 1), b.bits)
+        if abv is not None and bbv is not None:
+            return IntV(a.bits, a.signed, bv=[c * x + (ONE - c) * y for x, y in zip(abv, bbv)])
         return IntV(a.bits, a.signed, p=c * a.poly() + (ONE - c) * b.poly())
     if isinstance(a, BoolV) and isinstance(b, BoolV):
         return BoolV(c * a.p + (ONE - c) * b.p)
